@@ -354,6 +354,14 @@ def gen_case(rng, tier):
     case.update(presentation(rng, m))
     case["rmax"] = str(rmax_of(m, case["explicit_lists"]))
     case.update(arg_types(rng, case["rmax"]))
+    if rng.random() < .07:
+        # an rmax ARGUMENT that is not the MDP's maximum reward (above: x2, +1, +2^-20; below: -1, /2 - 1).  The
+        # property's bound and optimistic value are those of the MDP's OWN maximum reward (case["rmax"]); the call
+        # must either be rejected (the code asserts rmax == max reward) or be judged against that maximum.
+        true = F(case["rmax"])
+        case["rmax_arg"] = str(rng.choice([true * 2 + 1, true + 1, true + F(1, 2 ** 20), true - 1, true / 2 - 1]))
+        case["rmax_type"] = "float"
+        return case
     if rng.random() < .2:
         # object reuse: the SAME RMAX object is trained on this MDP and then again, either on the very same
         # MDP object or on a second MDP with a different discount rate (and its own rewards / rmax); each
@@ -549,7 +557,11 @@ def run(ctx):
     # judged units: one per train_on call.  A reuse case (case["then"]) gives two units, each judged by
     # the same certificate with its OWN MDP; view = the parameters of that call, case = the replayable case
     units = []
+    n_rejected_rmax = {"above": 0, "below": 0}
     for case, res in zip(cases, impl):
+        if "error" in res and "rmax_arg" in case and res["error"].startswith(("AssertionError", "ValueError")):
+            n_rejected_rmax["above" if F(case["rmax_arg"]) > F(case["rmax"]) else "below"] += 1
+            continue        # rejected call: nothing is returned, the property holds trivially
         if "error" in res:
             ex = case.get("explicit_lists")
             if ex and len(ex["states"]) > len(gen_mdp.reachable(case["mdp"])):
@@ -589,6 +601,7 @@ def run(ctx):
                 "tiny_branch_carrying_rmax": 0, "tiny_branch_only_route_state_in_state_list": 0,
                 "large_magnitude_relative_near_tie": 0, "large_magnitude_tolerance_below_1e-5_relative": 0,
                 "empirical_model_non_dyadic_m3_or_m5_known": 0,
+                "rmax_argument_not_the_maximum_reward_accepted_and_judged": 0,
                 "rmax_passed_as_numpy_float32": 0, "rmax_float32_and_optimistic_value_not_a_float32_number": 0,
                 "rmax_passed_as_int_or_numpy_int64_or_float64": 0, "threshold_and_episodes_as_numpy_int64": 0,
                 "reused_same_mdp_object": 0, "state_list_order_differs_from_id_order": 0,
@@ -690,6 +703,7 @@ def run(ctx):
                     t += float(F(pp))
                 return t
             counters["non_dyadic_float_row_sum_not_1"] += int(any(plain_sum(row) != 1.0 for row in view["mdp"]["trans"].values()))
+        counters["rmax_argument_not_the_maximum_reward_accepted_and_judged"] += int(tag == "first" and "rmax_arg" in view)
         counters["rmax_passed_as_numpy_float32"] += int(view.get("rmax_type") == "float32")
         counters["rmax_float32_and_optimistic_value_not_a_float32_number"] += int(view.get("rmax_type") == "float32" and f32(nb["q0x"]) != nb["q0x"])
         counters["rmax_passed_as_int_or_numpy_int64_or_float64"] += int(view.get("rmax_type") in ("int", "int64", "float64"))
@@ -826,7 +840,7 @@ def run(ctx):
         "rule": "four families.  NON-DYADIC (about 8%%): a MAIN-style MDP with probabilities in thirds/tenths/sevenths, rewards in tenths/thirds/sevenths, gamma in {9/10,19/20,1/3,2/3,7/10}; "
                 "msdm gets the nearest doubles, the Coq certificate the exact rationals of those doubles (clauses valid/upper/bellman/policy), the learner's float tallies and optimistic entries are compared "
                 "bit-exactly with the same float operations redone in Python; no mirror; in 60%% the rewards are single-precision numbers so that rmax can be passed as a numpy float32 scalar while rmax/(1-gamma) is not one.  "
-                "ARGUMENT TYPES (all families): rmax as float / int / numpy float64 / float32 / int64 where equal in value, threshold and episode count as int / numpy int64.  MAIN (about 84%%): proper MDPs from harness/gen_mdp.py (proper=True, uniform_actions=True: 1..%d states, 1..3 actions available in every state, "
+                "RMAX ARGUMENT OTHER THAN THE MAXIMUM REWARD (7%% of MAIN, above or below it): the call must be rejected (counted) or, if accepted, is judged against the MDP's own maximum reward.  ARGUMENT TYPES (all families): rmax as float / int / numpy float64 / float32 / int64 where equal in value, threshold and episode count as int / numpy int64.  MAIN (about 84%%): proper MDPs from harness/gen_mdp.py (proper=True, uniform_actions=True: 1..%d states, 1..3 actions available in every state, "
                 "k/8 probabilities, zero entries, duplicate rows, explicit absorbing goals possibly with ignored self-loop rewards, "
                 "multi-state initial distributions, rewards in quarters), gamma in {1/2,3/4,7/8} or exactly 0 (5%%), threshold m in 1..5, episodes 1..30 or 0 (3%%), "
                 "seed random / 0 (5%%) / None (3%%), tolerance in {1e-5 (x6), 1e-3, 1e-1, 1e-9}, rmax = max of the reward matrix (the code asserts it; 0 for the 6%% non-positive-reward MDPs); "
@@ -850,5 +864,6 @@ def run(ctx):
         "certificate_checks": nchk, "certificate_rejections": len(rejected),
         "mirror_runs": nmir, "mirror_not_evaluated_timeout": mir_unevaluated, "mirror_drift": drift, "mirror_fuel_exhausted": fuel_out,
         "mirror_action_rule_mismatch": act_mismatch,
-        "input_features": dict(counters, by_gamma=by_gamma, by_threshold=by_m, by_variant=by_variant),
+        "input_features": dict(counters, rmax_argument_above_the_maximum_reward_rejected=n_rejected_rmax["above"],
+                               rmax_argument_below_the_maximum_reward_rejected=n_rejected_rmax["below"], by_gamma=by_gamma, by_threshold=by_m, by_variant=by_variant),
     })
